@@ -9,6 +9,7 @@ import (
 	"testing"
 
 	aggsync "github.com/agglayer/aggkit/sync"
+	"verifharness/faultdb"
 	"verifharness/mon"
 )
 
@@ -215,6 +216,11 @@ func TestC07(t *testing.T) {
 	c07Readers(r)
 	c07Kill(r)
 
+	errKinds := map[string]any{}
+	for k, n := range []string{"opaque error", "SQLITE_IOERR_WRITE", "SQLITE_FULL", "SQLITE_CONSTRAINT_TRIGGER", "SQLITE_BUSY", "SQLITE_CONSTRAINT_NOTNULL"} {
+		errKinds[n] = faultdb.KindsInjected[k].Load()
+	}
+	r.Set("injected_error_kinds", errKinds)
 	finish(t, r, r.N(40, 80), "bridge/stmt/*", "l1info/stmt/*", "ger/stmt/*", "bridge/cancel/*", "driver/*")
 }
 
